@@ -21,6 +21,7 @@ type Listener struct {
 	done    chan struct{}
 	once    sync.Once
 	Accepts atomic.Int64
+	handed  sync.Map // conns that Accept returned
 	// TempErrs, if >0, makes Accept return that many temporary errors first.
 }
 
@@ -37,6 +38,7 @@ func (l *Listener) Accept() (net.Conn, error) {
 	select {
 	case c := <-l.ch:
 		l.Accepts.Add(1)
+		l.handed.Store(c, true)
 		return c, nil
 	case <-l.done:
 		return nil, net.ErrClosed
@@ -49,6 +51,13 @@ func (l *Listener) Close() error {
 }
 
 func (l *Listener) Addr() net.Addr { return l.addr }
+
+// WasAccepted reports whether Accept has returned c (connections still queued when the
+// listener is closed are never accepted, like a kernel backlog that is reset).
+func (l *Listener) WasAccepted(c net.Conn) bool {
+	_, ok := l.handed.Load(c)
+	return ok
+}
 
 // Inject queues a server-side connection for Accept.
 func (l *Listener) Inject(c net.Conn) { l.ch <- c }
